@@ -303,12 +303,158 @@ def gen_resolve(o, repo):
     o.add("resolve_record", thunk)
 
 
+# ---------------------------------------------------------------------------------------------------
+# LasAppender.__init__: where the first appended point record goes (uncompressed files). The branch
+# `if not header.are_points_compressed:` is executed symbolically over the header fields and the file length:
+#   Definition append_start (offset_to_point_data point_count point_size file_len minor number_of_evlrs start_of_first_evlr : Z) : Z
+# = the position of self.dest when __init__ returns. Every other seek of __init__ after that branch must sit in a block that saves the
+# position (pos = self.dest.tell()) first and ends with self.dest.seek(pos, io.SEEK_SET); append_points must hand the points to the
+# points appender exactly once without moving the stream, and UncompressedPointAppender.append_points must be one
+# self.dest.write(points.memoryview()). Anything else is Untranslatable.
+# ---------------------------------------------------------------------------------------------------
+class _Append:
+    NAMES = {"point_count": "point_count", "point_format.size": "point_size", "offset_to_point_data": "offset_to_point_data",
+             "version.minor": "minor", "number_of_evlrs": "number_of_evlrs", "start_of_first_evlr": "start_of_first_evlr"}
+    CMP = _Resolve.CMP
+
+    def zexpr(self, e):
+        if isinstance(e, ast.Constant) and isinstance(e.value, int) and not isinstance(e.value, bool):
+            return py2v.z(e.value)
+        if isinstance(e, ast.Attribute):
+            t = ast.unparse(e)
+            for pre in ("self.header.", "header."):
+                if t.startswith(pre) and t[len(pre):] in self.NAMES:
+                    return self.NAMES[t[len(pre):]]
+            raise Untranslatable(f"attribute {t[:60]}")
+        if isinstance(e, ast.BinOp) and isinstance(e.op, (ast.Add, ast.Sub, ast.Mult)):
+            op = {ast.Add: "+", ast.Sub: "-", ast.Mult: "*"}[type(e.op)]
+            return f"({self.zexpr(e.left)} {op} {self.zexpr(e.right)})"
+        raise Untranslatable(f"integer expression {ast.unparse(e)[:60]}")
+
+    def test(self, e):
+        if isinstance(e, ast.Compare) and len(e.ops) == 1 and type(e.ops[0]) in self.CMP:
+            return self.CMP[type(e.ops[0])].format(a=self.zexpr(e.left), b=self.zexpr(e.comparators[0]))
+        if isinstance(e, ast.BoolOp):
+            return "(" + (" && " if isinstance(e.op, ast.And) else " || ").join(self.test(v) for v in e.values) + ")"
+        if isinstance(e, ast.UnaryOp) and isinstance(e.op, ast.Not):
+            return f"negb {self.test(e.operand)}"
+        raise Untranslatable(f"condition {ast.unparse(e)[:60]}")
+
+    @staticmethod
+    def is_seek(s):
+        return (isinstance(s, ast.Expr) and isinstance(s.value, ast.Call)
+                and ast.unparse(s.value.func) in ("self.dest.seek", "dest.seek"))
+
+    def seek_pos(self, call):
+        if call.keywords or not 1 <= len(call.args) <= 2:
+            raise Untranslatable(f"seek call {ast.unparse(call)[:60]}")
+        whence = ast.unparse(call.args[1]) if len(call.args) == 2 else "io.SEEK_SET"
+        if whence in ("io.SEEK_SET", "os.SEEK_SET", "0"):
+            return self.zexpr(call.args[0])
+        if whence in ("io.SEEK_END", "os.SEEK_END", "2"):
+            return f"(file_len + {self.zexpr(call.args[0])})"
+        raise Untranslatable(f"seek whence {whence}")
+
+    def run(self, stmts, pos):
+        """position of the stream after stmts (Gallina text); pos = position before (None: not set by this branch yet)"""
+        if not stmts:
+            if pos is None:
+                raise Untranslatable("a path of the uncompressed branch does not position the stream")
+            return pos
+        s, rest = stmts[0], stmts[1:]
+        if isinstance(s, ast.Pass) or (isinstance(s, ast.Expr) and isinstance(s.value, ast.Constant)):
+            return self.run(rest, pos)
+        if isinstance(s, ast.Assign) and len(s.targets) == 1 and ast.unparse(s.targets[0]) == "self.points_appender":
+            if ast.unparse(s.value) not in ("UncompressedPointAppender(self.dest)", "UncompressedPointAppender(dest)"):
+                raise Untranslatable(f"points appender {ast.unparse(s.value)[:60]}")
+            return self.run(rest, pos)
+        if self.is_seek(s):
+            return self.run(rest, self.seek_pos(s.value))
+        if isinstance(s, ast.If):
+            t = self.test(s.test)
+            return f"(if {t} then {self.run(list(s.body) + rest, pos)} else {self.run(list(s.orelse) + rest, pos)})"
+        raise Untranslatable(f"statement {ast.unparse(s)[:80]}")
+
+    def check_restores(self, stmts):
+        """after the branch: a block that moves the stream saves the position first and restores it last"""
+        def on_scratch(x):
+            """a statement whose only stream is a fresh io.BytesIO() (a trial serialisation) does not use the destination"""
+            t = ast.unparse(x)
+            return "io.BytesIO()" in t and "dest" not in t
+
+        for s in stmts:
+            if isinstance(s, ast.If) and all(on_scratch(x) for x in list(s.body) + list(s.orelse)):
+                continue
+            if on_scratch(s):
+                continue
+            text = ast.unparse(s)
+            if ".seek(" not in text and ".read(" not in text and "read_from" not in text and ".write" not in text and ".truncate" not in text:
+                continue
+            if not isinstance(s, ast.If):
+                raise Untranslatable(f"the stream is used after it was positioned: {text[:80]}")
+            for blk in ([x for x in s.body if not on_scratch(x)], [x for x in s.orelse if not on_scratch(x)]):
+                btext = "\n".join(ast.unparse(x) for x in blk)
+                if not any(k in btext for k in (".seek(", ".read(", "read_from", ".write", ".truncate")):
+                    continue
+                saves = [i for i, x in enumerate(blk) if isinstance(x, ast.Assign) and len(x.targets) == 1 and isinstance(x.targets[0], ast.Name)
+                         and ast.unparse(x.value) in ("self.dest.tell()", "dest.tell()")]
+                if len(saves) != 1:
+                    raise Untranslatable("a block that moves the stream does not save the position exactly once")
+                var = blk[saves[0]].targets[0].id
+                for x in blk[:saves[0]]:
+                    xt = ast.unparse(x)
+                    if any(k in xt for k in (".seek(", ".read(", "read_from", ".write", ".truncate")):
+                        raise Untranslatable("the stream is moved before its position is saved")
+                for x in blk[saves[0] + 1:]:
+                    if any(isinstance(n, ast.Name) and n.id == var and isinstance(n.ctx, ast.Store) for n in ast.walk(x)):
+                        raise Untranslatable("the saved position is re-assigned")
+                if ast.unparse(blk[-1]) not in (f"self.dest.seek({var}, io.SEEK_SET)", f"dest.seek({var}, io.SEEK_SET)", f"self.dest.seek({var})", f"dest.seek({var})"):
+                    raise Untranslatable(f"the block does not end by restoring the saved position: {ast.unparse(blk[-1])[:60]}")
+
+
+def gen_append(o, repo):
+    def thunk():
+        mod = py2v.parse(repo, "laspy/lasappender.py")
+        cls = py2v.find_class(mod, "LasAppender")
+        init = py2v.find_func(cls, "__init__")
+        body = list(init.body)
+        br = [i for i, s in enumerate(body) if isinstance(s, ast.If) and ast.unparse(s.test) in ("not header.are_points_compressed", "not self.header.are_points_compressed")]
+        if len(br) != 1:
+            raise Untranslatable("LasAppender.__init__: no single `if not header.are_points_compressed` branch")
+        hdr = [s for s in body[:br[0]] if isinstance(s, ast.Assign) and ast.unparse(s.targets[0]) == "header"]
+        if len(hdr) != 1 or ast.unparse(hdr[0].value) != "LasHeader.read_from(dest)":
+            raise Untranslatable("header is not LasHeader.read_from(dest)")
+        a = _Append()
+        text = a.run(list(body[br[0]].body), None)
+        a.check_restores(body[br[0] + 1:])
+        # append_points: the points go to the points appender once, the stream is not moved
+        ap = py2v.find_func(cls, "append_points")
+        calls = [n for n in ast.walk(ap) if isinstance(n, ast.Call) and ast.unparse(n.func) == "self.points_appender.append_points"]
+        if len(calls) != 1 or ast.unparse(calls[0]) != "self.points_appender.append_points(points)":
+            raise Untranslatable("append_points does not hand `points` to the points appender exactly once")
+        for n in ast.walk(ap):
+            if isinstance(n, ast.Attribute) and n.attr in ("seek", "truncate", "write") and "dest" in ast.unparse(n.value):
+                raise Untranslatable("append_points touches the stream itself")
+            if isinstance(n, (ast.For, ast.While)):
+                raise Untranslatable("append_points loops")
+        up = py2v.find_func(py2v.find_class(mod, "UncompressedPointAppender"), "append_points")
+        stm = [s for s in up.body if not (isinstance(s, ast.Expr) and isinstance(s.value, ast.Constant))]
+        if len(stm) != 1 or ast.unparse(stm[0]) != "self.dest.write(points.memoryview())":
+            raise Untranslatable("UncompressedPointAppender.append_points is not one self.dest.write(points.memoryview())")
+        return ("(* laspy/lasappender.py LasAppender.__init__, uncompressed files: position of the stream when the appender is ready;\n"
+                "   append_points / UncompressedPointAppender.append_points write each chunk's records at the stream's position *)\n"
+                "Definition append_start (offset_to_point_data point_count point_size file_len minor number_of_evlrs start_of_first_evlr : Z) : Z :=\n  "
+                + text + ".\n")
+    o.add("append_start", thunk)
+
+
 _gen0 = gen
 
 
 def gen(repo):  # noqa: F811
     o = _gen0(repo)
     gen_resolve(o, repo)
+    gen_append(o, repo)
     return o
 
 
